@@ -145,6 +145,22 @@ def window_codons_on_chunk(lens, strand, frames, expand, realised=False):
             conds.append(OR(*[AND(g[0] == e[0], g[1] == e[1], g[2] == e[2], *[AND(w <= p, p < w + L) for p in e]) for e in exp_all]) if exp_all else False)
         for a, b in zip(got, got[1:]):
             conds.append(a[0] < b[0] if strand is PLUS else a[0] > b[0])
+        # the same window asked in CHROMOSOME coordinates is a chromosome-level answer: the chunk-built CDS lists what its parent-less twin lists (or refuses alike)
+        if not realised:
+            return AND(*conds) if conds else True
+        whole = CDSInterval(starts, ends, strand, fr, guid=45)
+
+        def chrom_scan(o):
+            try:
+                return [[loc.relative_to_parent_pos(i) for i in range(3)] for loc in o.scan_chromosome_codon_locations(ws, we, expand_window_to_partial_codons=expand)]
+            except (BioCantorException, ValueError) as e:  # noqa
+                return type(e).__name__
+
+        ca, cb = chrom_scan(chunk), chrom_scan(whole)
+        if isinstance(ca, str) or isinstance(cb, str):
+            conds.append(isinstance(ca, str) and isinstance(cb, str))
+        else:
+            conds.append(DEQ(ca, cb))
         return AND(*conds) if conds else True
 
     return fn
@@ -327,6 +343,31 @@ def chunk_accessors(strand, chunk_strand=PLUS):
             ok = ok and sorted(q for a, b in bl(got) for q in range(a, b)) == sorted(walk[1:])
             back = t.chunk_relative_interval_to_transcript(cex[0][0], cex[-1][1], rel_strand)
             ok = ok and sorted(q for a, b in bl(back) for q in range(a, b)) == list(range(len(walk)))
+        # the CDS-level and feature-level wrappers of the same conversions, along the visible part of the CDS / of a feature with the same blocks
+        if ccds:
+            corder = ccds if rel_strand is PLUS else list(reversed(ccds))
+            cwalk = [q for a, b in corder for q in (range(a, b) if rel_strand is PLUS else range(b - 1, a - 1, -1))]
+            for i, q in enumerate(cwalk):
+                ok = ok and t.cds_pos_to_chunk_relative(i) == q and t.chunk_relative_pos_to_cds(q) == i and t.cds.cds_pos_to_chunk_relative(i) == q
+            got = t.cds_interval_to_chunk_relative(0, len(cwalk), PLUS)
+            ok = ok and sorted(q for a, b in bl(got) for q in range(a, b)) == sorted(cwalk)
+            back = t.chunk_relative_interval_to_cds(ccds[0][0], ccds[-1][1], rel_strand)
+            ok = ok and sorted(q for a, b in bl(back) for q in range(a, b)) == list(range(len(cwalk)))
+            for q in walk:
+                if q not in cwalk:
+                    try:
+                        t.chunk_relative_pos_to_cds(q)
+                        ok = False
+                    except InvalidPositionException:
+                        pass
+        f = FeatureInterval([e[0] for e in ex], [e[1] for e in ex], strand, guid=49,
+                            parent_or_seq_chunk_parent=chunk_parent(w, Lc, seq=genome[w:w + Lc], strand=chunk_strand))
+        for i, q in enumerate(walk):
+            ok = ok and f.feature_pos_to_chunk_relative(i) == q and f.chunk_relative_pos_to_feature(q) == i
+        if len(walk) >= 2:
+            ok = ok and sorted(q for a, b in bl(f.feature_interval_to_chunk_relative(0, len(walk) - 1, PLUS)) for q in range(a, b)) == sorted(walk[:-1])
+            ok = ok and sorted(q for a, b in bl(f.chunk_relative_interval_to_feature(cex[0][0], cex[-1][1], rel_strand)) for q in range(a, b)) == list(range(len(walk)))
+        ok = ok and [(b.start, b.end) for b in f.chunk_relative_blocks] == cex
         # the alternative constructor rebuilds the visible part from its chunk-relative locations
         if chunk_strand is PLUS and not any(a[1] == b[0] for a, b in zip(cex, cex[1:])):
             t2 = TranscriptInterval.from_chunk_relative_location(t.chunk_relative_location, cds=t.cds if ccds else None, guid=48)
@@ -612,6 +653,12 @@ def obligations(tier):
                     desc = ("codon window (chromosome start/end%s) on a chunk-built CDS: the chunk-relative scan lists exactly the model codons fully inside "
                             "window and chunk, in frame, whatever window and chunk cut off the 5' end" % (", expanded to partial codons" if expand else ""))
                     if k == 1:
+                        out.append(Obl(name + "_realised", window_codons_on_chunk(lens, strand, frames, expand, realised=True), {"s0": int, "w": int, "ws": int, "wl": int},
+                                       lambda **kw: 100 <= kw["s0"] and kw["s0"] <= 102 and 96 <= kw["w"] and kw["w"] <= 106 and 97 <= kw["ws"] and kw["ws"] <= 110 and
+                                       1 <= kw["wl"] and kw["wl"] <= 12, budget=900, cost=60,
+                                       desc=desc + "; the same window asked in chromosome coordinates (scan_chromosome_codon_locations) equals the parent-less twin's answer",
+                                       bounds="exon length %s, start frame 0, first start 100..102, chunk start 96..106 (length %d), window start 97..110, length 1..12 (realised)" % (lens, L),
+                                       examples=[{"s0": 102, "w": 100, "ws": 103, "wl": 5}, {"s0": 100, "w": 104, "ws": 98, "wl": 12}]))
                         params = {"s0": int, "w": int, "ws": int, "we": int}
                         ex = {"s0": 102, "w": 100, "ws": 103, "we": 108}
                         out.append(Obl(name, window_codons_on_chunk(lens, strand, frames, expand), params,
@@ -633,6 +680,16 @@ def obligations(tier):
                                        bounds="exon lengths %s, consistent frames from start frame %d, first start 100..102, gaps 1..2, chunk start 98..%d (length %d), "
                                               "window start 99..%d, window length 3..8 (realised)" % (lens, f0, 100 + span - 3, L, 100 + span),
                                        examples=[ex, dict(ex, ws=104, wl=6), dict(ex, w=104, ws=101, wl=8)]))
+    from harness.c04 import chunk_parents_by_content_fn, parsers_importable
+
+    if parsers_importable():
+        out.append(Obl("io_parser_chunk_parents_by_content", chunk_parents_by_content_fn(), dict(e=int, d=int, where=int, order=int),
+                       lambda e, d, where, order: 5 <= e and e <= (8 if quick else 12) and -1 <= d and d <= 1 and 0 <= where and where <= 4 and 0 <= order and order <= 1,
+                       budget=900, cost=60,
+                       desc="(shared with C04) chunks built by io.parser.seq_chunk_to_parent for the same window from two sequences that differ in one base: a feature built "
+                            "on each chunk spells that chunk's own bases, in either order - the chunk view never shows another object's sequence",
+                       bounds="chunk lengths 2^e-1..2^e+1 for e = 5..%d x 5 edit positions x 2 orders (closed by the solver)" % (8 if quick else 12),
+                       examples=[dict(e=7, d=1, where=2, order=0)]))
     cds_shapes = [((5,), None), ((6,), None), ((7,), None), ((3, 3), None), ((4, 5), None), ((2, 4), None), ((4, 5), "shift")]
     if not quick:
         cds_shapes += [((3, 4), None), ((5, 2), None), ((1, 3), None), ((3, 3, 3), None), ((4, 2, 3), None), ((2, 2, 2), "shift")]
